@@ -326,6 +326,11 @@ func (e *Exec) loopHeader(b *ssa.BasicBlock, preds []*ssa.BasicBlock) {
 		}
 		entryVals[phi] = entryVal(phi)
 	}
+	if nx != nil && nx.IsString {
+		// a range over a string has no index phi: the ordinal of the last rune consumed is carried under the nil key and
+		// is called `rangeindex` in invariants, as in slice ranges (-1 on entry, K-1 at the head, K across a back edge)
+		entryVals[nil] = "(- 1)"
+	}
 	// invariants on entry are evaluated in the pre-loop state
 	var invInit []Term
 	if spec != nil {
@@ -398,6 +403,9 @@ func (e *Exec) loopHeader(b *ssa.BasicBlock, preds []*ssa.BasicBlock) {
 				cur[phi] = e.asTerm(v, phi.Type())
 			}
 		}
+		if nx != nil && nx.IsString && K != "" {
+			cur[nil] = "(- " + K + " 1)"
+		}
 		for k, inv := range spec.invariant {
 			if inv.name != "" && len(e.bound) > 0 {
 				continue // inside another loop's summary a grouped invariant is only ballast
@@ -432,6 +440,9 @@ func (e *Exec) loopHeader(b *ssa.BasicBlock, preds []*ssa.BasicBlock) {
 		}
 		if e.parent == nil && !e.noObl {
 			pi := pendingInv{l: l, spec: spec, reach: reach}
+			if nx != nil && nx.IsString {
+				pi.strK = K
+			}
 			for _, dc := range spec.decreases {
 				pi.decHead = append(pi.decHead, e.invExpr(dc.expr, b, cur, true))
 			}
@@ -767,6 +778,7 @@ type pendingInv struct {
 	spec    *loopSpec
 	decHead []Term // the variant expressions evaluated at the loop head
 	reach   Term
+	strK    Term // range over a string: the rune ordinal at the head
 }
 
 // invExpr evaluates a loop invariant; loop-carried variables are named by their source names.
@@ -811,6 +823,26 @@ func (e *Exec) invExpr(x *Expr, head *ssa.BasicBlock, phiVals map[*ssa.Phi]Term,
 				continue
 			}
 			env.vars[name] = typedTerm{t: e.peekTerm(x, v.Type()), typ: v.Type()}
+		}
+	}
+	// a local strings.Builder (an addressed local, so no value-level debug reference): its current contents, as a string
+	for _, b := range e.fn.Blocks {
+		for _, in := range b.Instrs {
+			dr, ok := in.(*ssa.DebugRef)
+			if !ok || !dr.IsAddr || dr.Object() == nil {
+				continue
+			}
+			al, ok := dr.X.(*ssa.Alloc)
+			if !ok || al.Type().String() != "*strings.Builder" {
+				continue
+			}
+			name := dr.Object().Name()
+			if _, taken := env.vars[name]; taken {
+				continue
+			}
+			if x, ok := e.lookup(al); ok && x.lv != nil && x.lv.cell != nil && len(x.lv.path) == 0 {
+				env.vars[name] = typedTerm{t: e.cellGet(x.lv.cell), typ: tStr}
+			}
 		}
 	}
 	// join-point phis outside loop headers (a local assigned on several paths before the loop), when the name is unambiguous
@@ -908,6 +940,11 @@ func (e *Exec) invExpr(x *Expr, head *ssa.BasicBlock, phiVals map[*ssa.Phi]Term,
 			}
 		}
 	}
+	if t, ok := phiVals[nil]; ok {
+		if _, taken := env.vars["rangeindex"]; !taken {
+			env.vars["rangeindex"] = typedTerm{t: t, typ: tInt}
+		}
+	}
 	var tt typedTerm
 	if asAssumption {
 		tt = env.trAssume(x)
@@ -936,6 +973,9 @@ func (e *Exec) finishInvariants() {
 						vals[phi] = e.term(phi.Edges[i])
 					}
 				}
+			}
+			if pi.strK != "" {
+				vals[nil] = pi.strK
 			}
 			saved := e.cur
 			e.cur = map[*cell]Term{}
